@@ -372,4 +372,228 @@ theorem run_empty (guard : Bool) (cfg : Cfg) : ∀ (ops : List Op) (s : St), Emp
     obtain ⟨s2, he2, hi2⟩ := run_empty guard cfg ops s1 hi1 (fun o h => ho o (List.mem_cons_of_mem _ h))
     exact ⟨s2, by simp [run, he, he2], hi2⟩
 
+/-! ### the cursor is brought into view -/
+
+theorem drawDown_prefix (gap : Int) (wants : Bool) (cursor : Nat) (H : Int) :
+    ∀ (rest : List Nat) (i : Nat) (ah : Int) (acc : List Child),
+      ∃ tail, drawDown gap wants cursor H rest i ah acc = acc ++ tail := by
+  intro rest
+  induction rest with
+  | nil => intro i ah acc; exact ⟨[], by simp [drawDown]⟩
+  | cons h rest ih =>
+    intro i ah acc
+    obtain ⟨t, ht⟩ := ih (i + 1) (ah + (h : Int) + gap) (acc ++ [{ idx := i, row := ah, height := h }])
+    simp only [drawDown]
+    split
+    · exact ⟨{ idx := i, row := ah, height := h } :: t, by rw [ht]; simp⟩
+    · split
+      · exact ⟨[{ idx := i, row := ah, height := h }], rfl⟩
+      · exact ⟨{ idx := i, row := ah, height := h } :: t, by rw [ht]; simp⟩
+
+theorem drawDown_length_ge (gap : Int) (wants : Bool) (cursor : Nat) (H : Int)
+    (rest : List Nat) (i : Nat) (ah : Int) (acc : List Child) :
+    acc.length ≤ (drawDown gap wants cursor H rest i ah acc).length := by
+  obtain ⟨t, ht⟩ := drawDown_prefix gap wants cursor H rest i ah acc
+  rw [ht, List.length_append]; omega
+
+/-- With the wants-cursor flag the loop runs at least through the cursor (or to the end). -/
+theorem drawDown_reaches (gap : Int) (cursor : Nat) (H : Int) :
+    ∀ (rest : List Nat) (i : Nat) (ah : Int) (acc : List Child),
+      acc.length + min rest.length (cursor + 1 - i) ≤ (drawDown gap true cursor H rest i ah acc).length := by
+  intro rest
+  induction rest with
+  | nil => intro i ah acc; simp [drawDown]
+  | cons h rest ih =>
+    intro i ah acc
+    have h1 := ih (i + 1) (ah + (h : Int) + gap) (acc ++ [{ idx := i, row := ah, height := h }])
+    have h2 := drawDown_length_ge gap true cursor H rest (i + 1) (ah + (h : Int) + gap) (acc ++ [{ idx := i, row := ah, height := h }])
+    simp only [List.length_append, List.length_singleton, List.length_cons] at h1 h2 ⊢
+    simp only [drawDown]
+    split
+    · omega
+    · rename_i hn
+      have : ¬ (i + 1 ≤ cursor) := fun h => hn ⟨by simp, h⟩
+      split
+      · simp only [List.length_append, List.length_singleton]; omega
+      · omega
+
+theorem contig_get {gap : Int} (hg : 0 ≤ gap) : ∀ (cs : List Child) (f : Child), Contig gap (f :: cs) →
+    ∀ (m : Nat) (c : Child), (f :: cs)[m]? = some c →
+      c.idx = f.idx + m ∧ (m = 0 → c = f) ∧ (1 ≤ m → f.row + (f.height : Int) ≤ c.row) := by
+  intro cs
+  induction cs with
+  | nil =>
+    intro f _ m c hm
+    cases m with
+    | zero => simp at hm; subst hm; exact ⟨rfl, fun _ => rfl, fun h => absurd h (by omega)⟩
+    | succ k => simp at hm
+  | cons d rest ih =>
+    intro f hc m c hm
+    cases m with
+    | zero => simp at hm; subst hm; exact ⟨rfl, fun _ => rfl, fun h => absurd h (by omega)⟩
+    | succ k =>
+      have hm' : (d :: rest)[k]? = some c := by simpa using hm
+      obtain ⟨i1, i2, i3⟩ := ih d hc.2 k c hm'
+      obtain ⟨l1, l2⟩ := hc.1
+      refine ⟨by omega, fun h => absurd h (by omega), fun _ => ?_⟩
+      by_cases hk : k = 0
+      · rw [i2 hk]; omega
+      · have := i3 (by omega); omega
+
+theorem usub_le {cursor top : Nat} (h1 : top ≤ cursor) (h2 : cursor < 2 ^ 63) :
+    usub cursor top = cursor - top := by
+  unfold usub U; omega
+
+theorem toInt_small {u : Nat} (h : u < 2 ^ 63) : toInt u = (u : Int) := by
+  unfold toInt; rw [if_pos h]
+
+theorem getElem?_lt {α} {l : List α} {i : Nat} {x : α} (h : l[i]? = some x) : i < l.length := by
+  rcases Nat.lt_or_ge i l.length with h' | h'
+  · exact h'
+  · rw [List.getElem?_eq_none h'] at h; cases h
+
+theorem cursorChild_hit (cs : List Child) (cursor top : Nat) (c : Child)
+    (h1 : top ≤ cursor) (h2 : cursor < 2 ^ 63) (hc : cs[cursor - top]? = some c) :
+    cursorChild cs cursor top = .ok (some c) := by
+  have hu : usub cursor top = cursor - top := usub_le h1 h2
+  have ht : toInt (cursor - top) = ((cursor - top : Nat) : Int) := toInt_small (by omega)
+  have hl : cursor - top < cs.length := getElem?_lt hc
+  unfold cursorChild
+  simp only [hu, ht, hc]
+  have : ((cursor - top : Nat) : Int) < (cs.length : Int) := by omega
+  rw [if_pos this]
+
+/-- What "visible" means for the selected child `c` in a viewport of `H` rows. -/
+def Visible (H : Nat) (c : Child) : Prop :=
+  c.row < (H : Int) ∧ 0 < c.row + (c.height : Int) ∧
+    (c.height ≤ H → 0 ≤ c.row ∧ c.row + (c.height : Int) ≤ H)
+
+theorem reveal_visible (cs : List Child) (s : St) (H : Nat) (c : Child)
+    (hH : 1 ≤ H) (hh : 1 ≤ c.height)
+    (hcc : cursorChild cs s.cursor s.top = .ok (some c)) (hmem : c ∈ cs)
+    (hrow : 0 ≤ c.row) (hnow : s.wantsCursor = false → c.row = 0) :
+    ∃ cs2 s3, reveal cs s H = .ok (cs2, s3) ∧ ∃ c' ∈ cs2, c'.idx = c.idx ∧ c'.height = c.height ∧ Visible H c' := by
+  by_cases hw : s.wantsCursor = true
+  · by_cases hb : c.row + (c.height : Int) > H
+    · refine ⟨cs.map fun x => { x with row := x.row + ((H : Int) - (c.row + (c.height : Int))) },
+        { s with wantsCursor := false }, ?_,
+        { c with row := c.row + ((H : Int) - (c.row + (c.height : Int))) }, ?_, rfl, rfl, ?_⟩
+      · unfold reveal; rw [if_pos hw, hcc]; simp only [hb, if_true]
+      · simp only [List.mem_map]; exact ⟨c, hmem, rfl⟩
+      · unfold Visible; simp only []; omega
+    · refine ⟨cs, { s with wantsCursor := false }, ?_, c, hmem, rfl, rfl, ?_⟩
+      · unfold reveal; rw [if_pos hw, hcc]; simp only [hb, if_false]
+      · unfold Visible; omega
+  · have hw' : s.wantsCursor = false := by simpa using hw
+    refine ⟨cs, s, ?_, c, hmem, rfl, rfl, ?_⟩
+    · unfold reveal; rw [if_neg hw]
+    · have := hnow hw'
+      unfold Visible; omega
+
+/-- **One draw after a selection change shows the selection.**  State hypotheses = what
+    `ensureScroll` leaves behind on a top-aligned scroll state with no pending scroll: either the top
+    is the cursor with offset 0, or the cursor is below the top, the wants-cursor flag is set and the
+    offset lies within the top item. -/
+theorem draw_cursor_visible (cfg : Cfg) (hs : List Nat) (s : St) (W H : Nat) (hc : Nat)
+    (hgap : 0 ≤ cfg.gap) (hW : W ≠ 65535) (hH : H ≠ 65535) (hH1 : 1 ≤ H)
+    (hp : s.pending = 0) (hoff : 0 ≤ s.offset)
+    (htc : s.top ≤ s.cursor) (hcur : hs[s.cursor]? = some hc) (hc1 : 1 ≤ hc) (hc63 : s.cursor < 2 ^ 63)
+    (hA : s.cursor = s.top → s.offset = 0)
+    (hB : s.top < s.cursor → s.wantsCursor = true ∧ ∃ ht, hs[s.top]? = some ht ∧ s.offset ≤ (ht : Int)) :
+    ∃ s' cs, draw true cfg hs s W H = .ok (s', cs) ∧
+      ∃ c ∈ cs, c.idx = s.cursor ∧ c.height = hc ∧ Visible H c := by
+  have hb : ¬ (H = 65535 ∨ W = 65535) := fun h => h.elim hH hW
+  have hah : ¬ (- s.offset > 0) := by clear hB hA; omega
+  -- prologue: nothing pending, offset ≥ 0 ⇒ no upward scroll
+  have hpro : prologue s = (- s.offset, { s with pending := 0 }) := by
+    unfold prologue
+    have h' : ¬ (- s.offset > 0 ∧ s.top = 0) := by omega
+    simp only [hp, Int.add_zero, h', if_false]
+  have hn : s.cursor < hs.length := by
+    exact getElem?_lt hcur
+  -- the children drawn downward from the top
+  obtain ⟨cs1, hcs1⟩ : ∃ x, x = drawDown cfg.gap s.wantsCursor s.cursor H (hs.drop s.top) s.top (- s.offset) [] := ⟨_, rfl⟩
+  have hsp := drawDown_spec cfg.gap s.wantsCursor s.cursor H hs (hs.drop s.top) s.top (- s.offset) [] rfl
+    trivial (by simp [Heights]) (by simp)
+  rw [← hcs1] at hsp
+  -- the first child is the top item at row −offset
+  obtain ⟨htop, hdrop⟩ : ∃ ht, hs.drop s.top = ht :: hs.drop (s.top + 1) := by
+    have : s.top < hs.length := by omega
+    exact ⟨hs[s.top], by rw [List.drop_eq_getElem_cons this]⟩
+  obtain ⟨tail, htail⟩ : ∃ tail, cs1 = { idx := s.top, row := - s.offset, height := htop } :: tail := by
+    rw [hcs1, hdrop]
+    obtain ⟨t, ht⟩ := drawDown_prefix cfg.gap s.wantsCursor s.cursor H (hs.drop (s.top + 1)) (s.top + 1)
+      (- s.offset + (htop : Int) + cfg.gap) ([] ++ [{ idx := s.top, row := - s.offset, height := htop }])
+    simp only [drawDown]
+    split
+    · exact ⟨t, by rw [ht]; simp⟩
+    · split
+      · exact ⟨[], rfl⟩
+      · exact ⟨t, by rw [ht]; simp⟩
+  -- the cursor child is among them
+  have hlen : s.cursor - s.top < cs1.length := by
+    by_cases he : s.cursor = s.top
+    · rw [htail]; simp [he]
+    · have hw := (hB (by omega)).1
+      have := drawDown_reaches cfg.gap s.cursor H (hs.drop s.top) s.top (- s.offset) []
+      rw [hcs1, hw]
+      simp only [List.length_nil, List.length_drop, Nat.zero_add] at this
+      omega
+  obtain ⟨c, hcget⟩ : ∃ c, cs1[s.cursor - s.top]? = some c := ⟨cs1[s.cursor - s.top], by simp [hlen]⟩
+  have hcmem : c ∈ cs1 := List.mem_of_getElem? hcget
+  have hcg := contig_get hgap tail _ (by rw [← htail]; exact hsp.1) (s.cursor - s.top) c (by rw [← htail]; exact hcget)
+  have hidx : c.idx = s.cursor := by have := hcg.1; simp only [] at this; omega
+  have hheight : c.height = hc := by
+    have := hsp.2 c hcmem
+    rw [hidx, hcur] at this
+    exact (Option.some.inj this).symm
+  have hrow : 0 ≤ c.row := by
+    by_cases he : s.cursor = s.top
+    · have := hcg.2.1 (by omega); rw [this]; simp only []; have := hA he; omega
+    · obtain ⟨_, ht, hht, hle⟩ := hB (by omega)
+      have e : htop = ht := by
+        have h1 : hs[s.top]? = some htop := (drop_cons_getElem? hdrop).1
+        rw [hht] at h1; exact (Option.some.inj h1).symm
+      have := hcg.2.2 (by omega)
+      simp only [] at this
+      omega
+  have hnow : s.wantsCursor = false → c.row = 0 := by
+    intro hw
+    by_cases he : s.cursor = s.top
+    · have := hcg.2.1 (by omega); rw [this]; simp only []; have := hA he; omega
+    · have := (hB (by omega)).1; rw [hw] at this; cases this
+  have hcc : cursorChild cs1 s.cursor s.top = .ok (some c) := cursorChild_hit cs1 _ _ c htc hc63 hcget
+  obtain ⟨cs2, s3, hrev, c', hc'mem, hc'idx, hc'h, hvis⟩ :=
+    reveal_visible cs1 { s with pending := 0 } H c hH1 (by omega) hcc hcmem hrow hnow
+  refine ⟨{ s3 with top := (retop cs2 0 (s3.top, s3.offset)).1, offset := (retop cs2 0 (s3.top, s3.offset)).2 },
+    cs2, ?_, c', hc'mem, hc'idx.trans hidx, hc'h.trans hheight, hvis⟩
+  unfold draw
+  simp only [hb, if_false, hpro, scrollUp, hah, gutter]
+  rw [← hcs1, hcc]
+  simp only [ite_self]
+  rw [hrev]
+
+/-- A settled scroll state: nothing pending and the line offset lies within the top item (what a
+    `Draw` leaves behind when some item covers row 0). -/
+def Settled (hs : List Nat) (s : St) : Prop :=
+  s.pending = 0 ∧ 0 ≤ s.offset ∧ ∃ ht, hs[s.top]? = some ht ∧ s.offset ≤ (ht : Int)
+
+/-- After `ensureScroll` on a settled state with the cursor moved to an existing item, one `Draw`
+    shows that item. -/
+theorem ensureScroll_draw_visible (cfg : Cfg) (hs : List Nat) (s : St) (c W H hc : Nat)
+    (hgap : 0 ≤ cfg.gap) (hW : W ≠ 65535) (hH : H ≠ 65535) (hH1 : 1 ≤ H)
+    (hs0 : Settled hs s) (hcur : hs[c]? = some hc) (hc1 : 1 ≤ hc) (hc63 : c < 2 ^ 63) :
+    ∃ s' cs, draw true cfg hs (ensureScroll { s with cursor := c }) W H = .ok (s', cs) ∧
+      ∃ ch ∈ cs, ch.idx = c ∧ ch.height = hc ∧ Visible H ch := by
+  obtain ⟨hp, ho, ht, hht, hle⟩ := hs0
+  unfold ensureScroll
+  simp only []
+  split
+  · rename_i hgt
+    exact draw_cursor_visible cfg hs _ W H hc hgap hW hH hH1 hp ho (Nat.le_of_lt hgt) hcur hc1 hc63
+      (fun h => by simp only [] at h; omega) (fun _ => ⟨rfl, ht, hht, hle⟩)
+  · rename_i hle'
+    exact draw_cursor_visible cfg hs _ W H hc hgap hW hH hH1 hp (Int.le_refl 0) (Nat.le_refl _) hcur hc1 hc63
+      (fun _ => rfl) (fun h => by simp only [] at h; omega)
+
 end VaxisModel.Lemmas.DynList
